@@ -1,17 +1,29 @@
 """Hand audit of the panic-capable edges reachable from FsmReader::read (C18, W7)."""
-R = "serializer::default_protocol_reader::DefaultProtocolReader::<R>::"
 REASONS = {
-    R + "read_additional_number_bytes|assert|overflow:Shl|1": "the shift amount is the constant 8 (the Assert only guards shift amounts >= 64)",
-    R + "read_additional_number_bytes|assert|overflow:Sub|1": "inside `while length > 0`",
-    R + "read_type_and_size|index|index:slice|1": "us = val & 0x0F <= 15, the buffer has 4096 bytes",
-    R + "read_type_and_size|index|index:slice|2": "same us as the read_exact one line above",
-    R + "read_type_and_size|string-insert|insert_str|1": "insert at byte index 0 of a cleared string is always on a char boundary",
-    R + "read_type_and_size|assert|overflow:Shl|1": "the shift amount is the constant 8",
-    R + "read_type_and_size|index|index:slice|3": "us = ((val & 0x0F) << 8) | byte <= 4095 < 4096 (the 12-bit length the writer's type nibble stands for)",
-    R + "read_type_and_size|index|index:slice|4": "same us as the read_exact one line above",
-    R + "read_type_and_size|string-insert|insert_str|2": "insert at byte index 0 is always on a char boundary",
-    "serializer::fsm_reader::FsmReader::<'a, R>::read|unwrap|unwrap|1": "SystemTime::now() is after UNIX_EPOCH on any sane clock; independent of the image (outside this property's quantifier)",
-    "serializer::fsm_reader::FsmReader::<'a, R>::read|unwrap|unwrap|2": "SystemTime::now() is after UNIX_EPOCH on any sane clock; independent of the image",
-    "serializer::fsm_reader::FsmReader::<'a, R>::read|assert|overflow:Sub|1": "end - start of two wall-clock reads underflows only if the clock is stepped backwards during the load; independent of the image (noted in DESIGN as a latent panic outside the quantifier)",
-    "serializer::fsm_reader::FsmReader::<'a, R>::read_executable_content|diverge|panic!|1": "a truncated image yields tag 0 (= TYPE_IF) because failed reads return 0, never an unknown tag; a corrupted (not truncated) image is outside this property",
+    'serializer::default_protocol_reader::DefaultProtocolReader::<R>::read_additional_number_bytes|assert|overflow:Shl|1':
+        'the shift amount is the constant 8 (the Assert only guards shift amounts >= 64)',
+    'serializer::default_protocol_reader::DefaultProtocolReader::<R>::read_additional_number_bytes|assert|overflow:Sub|1':
+        'inside `while length > 0`',
+    'serializer::default_protocol_reader::DefaultProtocolReader::<R>::read_type_and_size|index|index:slice|1':
+        'us = val & 0x0F <= 15, the buffer has 4096 bytes',
+    'serializer::default_protocol_reader::DefaultProtocolReader::<R>::read_type_and_size|index|index:slice|2':
+        'same us as the read_exact one line above',
+    'serializer::default_protocol_reader::DefaultProtocolReader::<R>::read_type_and_size|string-insert|insert_str|1':
+        'insert at byte index 0 of a cleared string is always on a char boundary',
+    'serializer::default_protocol_reader::DefaultProtocolReader::<R>::read_type_and_size|assert|overflow:Shl|1':
+        'the shift amount is the constant 8',
+    'serializer::default_protocol_reader::DefaultProtocolReader::<R>::read_type_and_size|index|index:slice|3':
+        "us = ((val & 0x0F) << 8) | byte <= 4095 < 4096 (the 12-bit length the writer's type nibble stands for)",
+    'serializer::default_protocol_reader::DefaultProtocolReader::<R>::read_type_and_size|index|index:slice|4':
+        'same us as the read_exact one line above',
+    'serializer::default_protocol_reader::DefaultProtocolReader::<R>::read_type_and_size|string-insert|insert_str|2':
+        'insert at byte index 0 is always on a char boundary',
+    "serializer::fsm_reader::FsmReader::<'a, R>::read|unwrap|unwrap<-duration_since|1":
+        "SystemTime::now() is after UNIX_EPOCH on any sane clock; independent of the image (outside this property's quantifier)",
+    "serializer::fsm_reader::FsmReader::<'a, R>::read|unwrap|unwrap<-duration_since|2":
+        'SystemTime::now() is after UNIX_EPOCH on any sane clock; independent of the image',
+    "serializer::fsm_reader::FsmReader::<'a, R>::read|assert|overflow:Sub|1":
+        'end - start of two wall-clock reads underflows only if the clock is stepped backwards during the load; independent of the image (noted in DESIGN as a latent panic outside the quantifier)',
+    "serializer::fsm_reader::FsmReader::<'a, R>::read_executable_content|diverge|panic!|1":
+        'a truncated image yields tag 0 (= TYPE_IF) because failed reads return 0, never an unknown tag; a corrupted (not truncated) image is outside this property',
 }
